@@ -14,6 +14,7 @@ build from /repo itself.  `--clean` removes all slots."""
 import json, os, queue, shutil, subprocess, sys, threading, time
 VERIF = os.path.dirname(os.path.dirname(os.path.abspath(__file__)))
 ROOT = "/root/scratch/slots"
+SEEDDIR = "seeded"   # --dir benign: legitimate changes that must NOT raise an alarm
 REWRITE = ["mc/Cargo.toml", "mc/.cargo/config.toml", "mc-loom/Cargo.toml", "mc-loom/.cargo/config.toml",
            "mc/src/lib.rs", "mc/src/bin/c12.rs", "mc/src/bin/c14.rs"]
 
@@ -44,7 +45,7 @@ def prepare(slot):
         sh("git reset -q --hard && git clean -fdq -e target", cwd=repo)
         sh(f"git checkout -q --detach {head}", cwd=repo)
     os.makedirs(verif, exist_ok=True)
-    ex = " ".join(f"--exclude=/{p}" for p in ["target", "target-loom", ".git", "seeded", "replays", "evidence"] + REWRITE)
+    ex = " ".join(f"--exclude=/{p}" for p in ["target", "target-loom", ".git", "seeded", "benign", "replays", "evidence"] + REWRITE)
     sh(f"rsync -a --delete {ex} {VERIF}/ {verif}/")
     for sub in ("replays", "evidence"):
         os.makedirs(os.path.join(verif, sub), exist_ok=True)
@@ -61,7 +62,7 @@ def prepare(slot):
 
 def try_one(slot, name, props, tier):
     repo, verif = prepare(slot)
-    d = os.path.join(VERIF, "seeded", name)
+    d = os.path.join(VERIF, SEEDDIR, name)
     meta = json.load(open(os.path.join(d, "meta.json")))
     ps = props or [meta["property"]]
     rc, o = sh(f"git apply --3way {d}/patch.diff", cwd=repo)
@@ -91,21 +92,24 @@ def main():
         for k in os.listdir(ROOT) if os.path.isdir(ROOT) else []:
             sh(f"git -C /repo worktree remove --force {ROOT}/{k}/repo")
         shutil.rmtree(ROOT, ignore_errors=True); sh("git -C /repo worktree prune"); return
+    global SEEDDIR
     jobs, tier, props = 4, "quick", None
+    if "--dir" in a:
+        i = a.index("--dir"); SEEDDIR = a[i + 1]; del a[i:i + 2]
     if "--jobs" in a:
         i = a.index("--jobs"); jobs = int(a[i + 1]); del a[i:i + 2]
     if "--tier" in a:
         i = a.index("--tier"); tier = a[i + 1]; del a[i:i + 2]
     if "--props" in a:
         i = a.index("--props"); props = a[i + 1].split(","); del a[i:i + 2]
-    allseeds = sorted(x for x in os.listdir(os.path.join(VERIF, "seeded")) if os.path.exists(os.path.join(VERIF, "seeded", x, "meta.json")))
+    allseeds = sorted(x for x in os.listdir(os.path.join(VERIF, SEEDDIR)) if os.path.exists(os.path.join(VERIF, SEEDDIR, x, "meta.json")))
     if "--all" in a:
         names = allseeds
     elif "--missing" in a:
-        names = [x for x in allseeds if not os.path.exists(os.path.join(VERIF, "seeded", x, "detection.json"))]
+        names = [x for x in allseeds if not os.path.exists(os.path.join(VERIF, SEEDDIR, x, "detection.json"))]
     else:
         names = a
-    names = [n for n in names if not json.load(open(os.path.join(VERIF, "seeded", n, "meta.json"))).get("retired")]
+    names = [n for n in names if not json.load(open(os.path.join(VERIF, SEEDDIR, n, "meta.json"))).get("retired")]
     q = queue.Queue()
     for n in names:
         q.put(n)
